@@ -125,6 +125,15 @@ def step (o : Obj) (t : List String) : Option (Obj × String) :=
   | "symvalue" :: i :: v :: _ =>
     some <| single o (.symByValue (parseNat i) (BitVec.ofNat 64 (parseNat v))) fun out =>
       match out with | .byValue r => s!"symvalue {tf r.1}/{bytesStr r.2.1}/{attrsStr r.2.2}" | _ => "?"
+  | ["swap", i, a, b] =>
+    let i := parseNat i
+    match runQuery o (.swap i (BitVec.ofNat 64 (parseNat a)) (BitVec.ofNat 64 (parseNat b))) with
+    | .error f => some (o, f.render)
+    | .ok (o1, .swapped) =>
+      match o1.secs[i]? with
+      | some s' => some (o1, s!"swap data={dataStr s'.data s'.size.toNat}")
+      | none => some (o1, "null")
+    | .ok (o1, _) => some (o1, "null")
   | [op, i] =>
     let i := parseNat i
     if op == "arr32" || op == "arr64" then
